@@ -240,6 +240,15 @@ pub fn number_templates() -> Vec<&'static str> {
     "{k: 1, m: N}",
     "N in [N..N]",
     "N instance of number",
+    // the name read after a construct that introduced names of its own (or none) has ended
+    "[function() 1, N + 1][2]",
+    "[function(p) p, N * 2][2]",
+    "[(function() 1)(), N - 1]",
+    "{k: function() 1, m: N + 1}.m",
+    "[{k: 1}.k, N + 1]",
+    "[for i in [1] return i, N + 1]",
+    "[some i in [1] satisfies i = 1, N / 1]",
+    "[[1, 2][item > 1], N - 1]",
   ]
 }
 
@@ -266,6 +275,14 @@ pub fn binder_templates() -> Vec<&'static str> {
     "some B in [1, 2, 3] satisfies B > 2",
     "every B in [1, 2, 3] satisfies B > 0",
     "{B: {k: 7}, m: B.k}.m",
+    // the introduced name read after a construct nested in its scope has ended
+    "{B: 7, k: function() 1, m: B * 2}.m",
+    "{B: 7, k: function(p) p, m: B - 1}.m",
+    "for B in [1, 2] return [function() 0, B * 2]",
+    "for B in [1, 2] return [{k: 1}.k, B + 1]",
+    "(function(B) [function() 0, B + 1])(7)",
+    "(function(B) [for i in [1] return i, B - 1])(7)",
+    "some B in [1, 2] satisfies [function() 0, B * 2][2] > 3",
   ]
 }
 
